@@ -21,6 +21,7 @@ RULE = (
     "a harness LambdaChannel displacing every symbol by 0.5 and 0.98 of d_min/2 in a random direction. Oracle: exact equality with the transmitted message. Messages exhaustive for "
     "k<=8, seeded otherwise; batch sizes 1 and 4. Distinct = (chain, channel fault, message batch); non-trivial = non-zero message or a non-empty fault."
     " Added after the seeded-fault rounds: BCH(15,5)+BM chains with all triple flips, sibling codes of equal class and shape in one process, message bits as int64/uint8/float64."
+    " Round 5: chains over codes with ascending and permuted index-list information sets (Hamming, cyclic, systematic, Golay) with syndrome and brute-force decoders; un-normalised constellations of every (scheme, order, labelling) in the quick tier too."
 )
 ASSUMPTIONS = [
     "t = floor((d-1)/2) with d the reference's true distance of the code actually produced; d_min from the effective constellation (driving the real modulator)",
@@ -58,6 +59,12 @@ def code_pairings(tier):
         ("hamming(7,4),right", {"family": "hamming", "mu": 3, "extended": False, "info": "right", "info_kind": "right"}, "syndrome", False),
         ("cyclic(15,11)", {"family": "cyclic", "n": 15, "g": 0b10011, "h": 0, "src": "g", "info": "right", "info_kind": "right"}, "syndrome", False),
         ("spc(5)", {"family": "spc", "k": 5}, "syndrome", False),
+        # index-list information sets (ascending and permuted): the message sits at scattered codeword positions
+        ("hamming(7,4),list", {"family": "hamming", "mu": 3, "extended": False, "info": [1, 2, 4, 6], "info_kind": "sorted_list"}, "syndrome", False),
+        ("hamming(7,4),permuted", {"family": "hamming", "mu": 3, "extended": False, "info": [6, 0, 3, 5], "info_kind": "permuted_list"}, "bruteforce", False),
+        ("cyclic(7,4),list", {"family": "cyclic", "n": 7, "g": 0b1011, "h": 0b10111, "src": "g", "info": [0, 2, 3, 5], "info_kind": "sorted_list"}, "syndrome", False),
+        ("systematic(7,3),permuted", {"family": "systematic", "P": [[1, 1, 0, 1], [0, 1, 1, 1], [1, 0, 1, 1]], "info": [5, 1, 3], "info_kind": "permuted_list"}, "syndrome", False),
+        ("golay(23,12),list", {"family": "golay", "extended": False, "info": [0, 1, 3, 4, 6, 8, 9, 11, 13, 16, 19, 22], "info_kind": "sorted_list"}, "syndrome", False),
         ("hamming(7,4)", {"family": "hamming", "mu": 3, "extended": False, "info": "left", "info_kind": "left"}, "bp", True),
         ("hamming(7,4)", {"family": "hamming", "mu": 3, "extended": False, "info": "left", "info_kind": "left"}, "minsum", True),
         ("ldpc(6,3)", {"family": "ldpc", "kind": "example3x6", "H": [[1, 1, 0, 1, 0, 0], [0, 1, 1, 0, 1, 0], [1, 0, 1, 0, 0, 1]]}, "bp", True),
@@ -114,8 +121,8 @@ def modem_list(tier):
         keep = []
         seen = set()
         for s in ms:
-            key = (s["scheme"], s.get("order"), s.get("gray"))
-            if key in seen or s.get("normalize") is False or s.get("complex_output") is False:
+            key = (s["scheme"], s.get("order"), s.get("gray"), s.get("normalize") is False)
+            if key in seen or s.get("complex_output") is False or s.get("form"):
                 continue
             seen.add(key)
             keep.append(s)
@@ -132,6 +139,8 @@ def units(tier, seed):
             nn = _n_of(spec)
             if nn % b != 0:
                 continue
+            if tier == "quick" and s.get("normalize") is False and label not in ("golay(24,12)", "hamming(8,4)"):
+                continue  # un-normalised constellations: every (scheme, order, labelling) once, on two codes
             if tier == "quick" and s.get("order", 4) > 16 and not (nn % b == 0 and b in (5, 6, 8) and label in ("golay(24,12)", "bch(15,7),left", "rm(1,4)", "repetition(5)", "repetition(6)")):
                 continue
             out.append({"unit": f"{label}+{dec}+{modems.cfg(s)}", "code": spec, "label": label, "decoder": dec, "soft": soft, "modem": s, "cost": 1 + nn / 8 + s.get("order", 4) / 32, "group": f"{dec}:{nn}:{s['scheme']}:{s.get('order', 0)}"})
